@@ -35,6 +35,7 @@ import (
 	"sync/atomic"
 	"time"
 
+	"github.com/renbou/grpcbridge"
 	"github.com/renbou/grpcbridge/grpcadapter"
 	"google.golang.org/grpc"
 	"google.golang.org/grpc/codes"
@@ -367,4 +368,157 @@ func execNewRace(f []string) string {
 		}
 	}
 	return fmt.Sprintf("bad=%d", bad)
+}
+
+// execCClose: Close / Remove while Stream attempts WAIT on a connection that is not ready.
+//
+//	cclose <Dms> <hang|refuse> <n>   one real AdaptedClientConn whose dialer blocks for ever (Connecting) or fails at once
+//	                                 every time (TransientFailure); n goroutines call Stream — even ones without any
+//	                                 deadline, odd ones with deadline D — and once the first dial is in progress (plus
+//	                                 30 ms, so that they all sit in WaitForStateChange) the connection is closed.
+//	rclose <Dms> <hang|refuse> <n>   the same through a real ReflectionRouter: Add (the backend is down), the callers
+//	                                 fetch the pooled connection and start their Streams, then Remove(name) — which
+//	                                 first waits for the resolver's own attempt (5–10 s) and then closes the connection.
+//
+// Every Stream must return within a second of the Close / of Remove's return (slow = those that did not; a watchdog
+// cancels them after 2.5 s so that the case ends) with gRPC's closing error or Unavailable (bad = anything else);
+// none returns before the close (early); a Stream afterwards answers Unavailable.
+func execCClose(f []string) string {
+	if len(f) != 4 {
+		return "BADOP"
+	}
+	dms, e1 := strconv.Atoi(f[1])
+	n, e2 := strconv.Atoi(f[3])
+	mode := f[2]
+	if e1 != nil || e2 != nil || dms < 0 || dms > 60000 || n < 1 || n > 32 || (mode != "hang" && mode != "refuse") {
+		return "BADOP"
+	}
+	router := f[0] == "rclose"
+	dialing := make(chan struct{}, 1)
+	dialer := func(ctx context.Context, _ string) (net.Conn, error) {
+		select {
+		case dialing <- struct{}{}:
+		default:
+		}
+		if mode == "refuse" {
+			return nil, errors.New("c16: connection refused")
+		}
+		<-ctx.Done()
+		return nil, ctx.Err()
+	}
+	newConn := func(string, ...grpc.DialOption) (*grpc.ClientConn, error) {
+		return grpc.NewClient("passthrough:///c16-cclose", grpc.WithContextDialer(dialer),
+			grpc.WithTransportCredentials(insecure.NewCredentials()))
+	}
+	var cc grpcadapter.ClientConn
+	var closeIt func() string
+	if router {
+		rr := grpcbridge.NewReflectionRouter(grpcbridge.WithConnFunc(newConn), grpcbridge.WithDisabledReflectionPolling())
+		if ok, err := rr.Add("down", "c16-down"); !ok || err != nil {
+			return "setup-add-failed"
+		}
+		c, ok := rr.VerifConnPool().Get("down")
+		if !ok || isNilConn(c) {
+			return "setup-no-conn"
+		}
+		cc = c
+		closeIt = func() string {
+			if rr.Remove("down") {
+				return "t"
+			}
+			return "f"
+		}
+	} else {
+		gc, err := newConn("")
+		if err != nil {
+			return "setup-err"
+		}
+		ac := grpcadapter.AdaptClient(gc)
+		cc = ac
+		closeIt = func() string { ac.Close(); return "t" }
+	}
+
+	type res struct {
+		at  time.Time
+		tok string
+	}
+	results := make([]res, n)
+	cancels := make([]context.CancelFunc, n)
+	var wg sync.WaitGroup
+	var panics int32
+	for i := 0; i < n; i++ {
+		ctx, cancel := context.WithCancel(context.Background())
+		if i%2 == 1 && dms > 0 {
+			ctx, cancel = context.WithTimeout(context.Background(), time.Duration(dms)*time.Millisecond)
+		}
+		cancels[i] = cancel
+		wg.Add(1)
+		go func(i int, ctx context.Context) {
+			defer wg.Done()
+			defer func() {
+				if recover() != nil {
+					atomic.AddInt32(&panics, 1)
+					results[i] = res{time.Now(), "panic"}
+				}
+			}()
+			st, err := cc.Stream(ctx, waitMethod)
+			results[i] = res{time.Now(), codeTok(err)}
+			if err == nil {
+				st.Close()
+			}
+		}(i, ctx)
+	}
+	select {
+	case <-dialing:
+	case <-time.After(3 * time.Second):
+	}
+	time.Sleep(30 * time.Millisecond)
+	closeStart := time.Now()
+	rm := guardedLong(closeIt)
+	closed := time.Now()
+	ref := closed // Remove: the connection is closed just before it returns; Close: when it returns
+	if !router {
+		ref = closeStart
+	}
+	watchdog := time.AfterFunc(2500*time.Millisecond, func() {
+		for _, c := range cancels {
+			c()
+		}
+	})
+	done := make(chan struct{})
+	go func() { wg.Wait(); close(done) }()
+	select {
+	case <-done:
+	case <-time.After(opTimeout):
+		watchdog.Stop()
+		return "hang"
+	}
+	watchdog.Stop()
+	for _, c := range cancels {
+		c()
+	}
+	bad, slow, early := 0, 0, 0
+	for _, r := range results {
+		switch {
+		case r.at.Before(closeStart):
+			early++
+		case r.at.After(ref.Add(time.Second)):
+			slow++
+		case r.tok != "code1" && r.tok != "unavail":
+			bad++
+		}
+		raceMu.Lock()
+		raceHist["waiting:"+r.tok]++
+		raceMu.Unlock()
+	}
+	after := guarded(func() string {
+		ctx, cancel := context.WithTimeout(context.Background(), 2*time.Second)
+		defer cancel()
+		st, err := cc.Stream(ctx, waitMethod)
+		if err == nil {
+			st.Close()
+		}
+		return codeTok(err)
+	})
+	return fmt.Sprintf("close=%s bad=%d slow=%d early=%d panic=%d after=%s", rm, bad, slow, early, panics, after)
 }
